@@ -16,6 +16,9 @@ pub struct RelCase {
     pub skel: RSkel,
     pub v: Vec<usize>,
     pub subst: bool,
+    /// identifier-alphabet clause: this character (code point) inside a package name (`false`) or a version (`true`)
+    #[serde(default, skip_serializing_if = "Option::is_none")]
+    pub ident: Option<(u32, bool)>,
 }
 
 #[derive(Clone, Copy, PartialEq)]
@@ -50,6 +53,8 @@ enum RShard {
     Dev(RSkel, bool, Option<usize>),
     /// full product of the six relation parts for a one-relation field, crossed with every single whitespace deviation
     Parts(usize),
+    /// every identifier character inside a package name and inside a version
+    Ident,
 }
 
 fn shards() -> Vec<RShard> {
@@ -65,6 +70,7 @@ fn shards() -> Vec<RShard> {
     for name in 0..NAMES.len() {
         v.push(RShard::Parts(name));
     }
+    v.push(RShard::Ident);
     v
 }
 
@@ -79,9 +85,19 @@ fn explore_rel(t: Tier, shard: usize, f: &mut dyn FnMut(&RelCase) -> Verdict) {
                     if subst && !has_sv && first.is_some() {
                         return;
                     }
-                    f(&RelCase { skel: sk, v: v.to_vec(), subst });
+                    f(&RelCase { skel: sk, v: v.to_vec(), subst, ident: None });
                 }
             });
+        }
+        RShard::Ident => {
+            let sk = RSkel { entries: 1, alts: 1 };
+            for cp in 33u32..127 {
+                let ch = char::from_u32(cp).unwrap();
+                if ch.is_ascii_alphanumeric() || "-.+~".contains(ch) {
+                    f(&RelCase { skel: sk, v: vec![], subst: false, ident: Some((cp, false)) });
+                    f(&RelCase { skel: sk, v: vec![], subst: false, ident: Some((cp, true)) });
+                }
+            }
         }
         RShard::Parts(name) => {
             let sk = RSkel { entries: 1, alts: 1 };
@@ -96,14 +112,14 @@ fn explore_rel(t: Tier, shard: usize, f: &mut dyn FnMut(&RelCase) -> Verdict) {
                 if render(sk, &v, false).is_none() {
                     return;
                 }
-                f(&RelCase { skel: sk, v: v.clone(), subst: false });
+                f(&RelCase { skel: sk, v: v.clone(), subst: false, ident: None });
                 // every single whitespace deviation on top of this relation
                 for ws in (base + 6..base + REL_SLOTS).chain([0, 1, 2]) {
                     for c in 1..m[ws] {
                         let mut w = v.clone();
                         w[ws] = c;
                         if render(sk, &w, false).is_some() {
-                            f(&RelCase { skel: sk, v: w, subst: false });
+                            f(&RelCase { skel: sk, v: w, subst: false, ident: None });
                         }
                     }
                 }
@@ -224,7 +240,7 @@ impl Prop for RelProp {
         "exploration"
     }
     fn rule(&self, _t: Tier) -> String {
-        "relationship fields are choice vectors over the slots of an ExA skeleton (1-3 entries x 1-3 alternatives): entry kind (relation entry / empty entry / substvar), whitespace around ',' and '|' and at field start/end (incl. newlines), trailing comma, and per relation name, archqual, operator, version (epoch, '~'), architecture list (negated or not), profile groups and whitespace between parts; every vector with <= k deviations is rendered with its model and read; additionally the FULL product of the relation parts for a one-relation field x every single whitespace deviation; vectors whose deviation has no effect are skipped (all cases distinct); non-trivial = field with at least one deviation".into()
+        "relationship fields are choice vectors over the slots of an ExA skeleton (1-3 entries x 1-3 alternatives): entry kind (relation entry / empty entry / substvar), whitespace around ',' and '|' and at field start/end (incl. newlines), trailing comma, and per relation name, archqual, operator, version (epoch, '~'), architecture list (negated or not), profile groups and whitespace between parts; every vector with <= k deviations is rendered with its model and read; additionally every identifier character (alphanumerics, '-', '.', '+', '~') inside a package name and inside a version, and the FULL product of the relation parts for a one-relation field x every single whitespace deviation; vectors whose deviation has no effect are skipped (all cases distinct); non-trivial = field with at least one deviation".into()
     }
     fn bounds(&self, t: Tier) -> Value {
         let per: Vec<Value> = skeletons().iter().map(|sk| json!({"skeleton": sk, "slots": menus(*sk).len(), "k": k_for(t, *sk), "vectors_upper_bound": kdev_count(&menus(*sk), k_for(t, *sk))})).collect();
@@ -244,10 +260,24 @@ impl Prop for RelProp {
         explore_rel(t, shard, f)
     }
     fn check(&self, c: &RelCase, st: &mut Stats) -> Vec<Viol> {
-        let Some((text, model)) = render(c.skel, &c.v, c.subst) else {
+        let rendered = match c.ident {
+            Some((cp, in_version)) => {
+                let ch = char::from_u32(cp).unwrap_or('a');
+                let name = if in_version { "pkg".to_string() } else { format!("x{}y", ch) };
+                let version = if in_version { Some(("=".to_string(), format!("1{}2", ch))) } else { None };
+                let text = match &version {
+                    Some((op, v)) => format!("{} ({} {})", name, op, v),
+                    None => name.clone(),
+                };
+                let m = MRel { name, archqual: None, version, archs: None, profiles: vec![] };
+                Some((text, MField { entries: vec![vec![m]], substvars: vec![] }))
+            }
+            None => render(c.skel, &c.v, c.subst),
+        };
+        let Some((text, model)) = rendered else {
             return vec![];
         };
-        if c.v.iter().any(|x| *x != 0) {
+        if c.v.iter().any(|x| *x != 0) || c.ident.is_some() {
             st.nontrivial += 1;
         }
         let r = guard(budget_for(text.len()) * 8, || match self.0 {
@@ -271,7 +301,7 @@ impl Prop for RelProp {
         if c.skel != small {
             let n = menus(small).len();
             if c.v.len() >= n && c.v[n..].iter().all(|x| *x == 0) {
-                out.push(RelCase { skel: small, v: c.v[..n].to_vec(), subst: c.subst });
+                out.push(RelCase { skel: small, v: c.v[..n].to_vec(), subst: c.subst, ident: None });
             }
         }
         for i in 0..c.v.len() {
@@ -279,7 +309,7 @@ impl Prop for RelProp {
                 let mut v = c.v.clone();
                 v[i] = 0;
                 if render(c.skel, &v, c.subst).is_some() {
-                    out.push(RelCase { skel: c.skel, v, subst: c.subst });
+                    out.push(RelCase { skel: c.skel, v, subst: c.subst, ident: None });
                 }
             }
         }
